@@ -6,6 +6,7 @@ REAL_SERVER = ["dnsserver.FBDNSDB (Reload, AcquireReader, Close, ReloadChan loop
 CHECKS = {
     "C06": {
         "test": "TestC06",
+        "cover_note": "distinct operator sequences of length 1..3 over the reload kinds (target x outcome x timing) and shutdown that were executed",
         "level": "fault_enumeration",
         "budget": {"quick": 30, "thorough": 600},
         "rule": ("each evaluation is one simulated history: up to 3 reader tasks (acquire / use / release sessions), one operator "
